@@ -135,6 +135,16 @@ def check_csv(a, rows, work):
         return err
     if len(got) != len(rows):
         return "emitted %d rows for %d CSV rows" % (len(got), len(rows))
+    # the second generator (list the test-suite iterates over): one "d.d" line per row, same order
+    outp = os.path.join(work, "list.txt")
+    p2 = subprocess.run(["perl", "-I" + SHIM, os.path.join(a.repo, "util", "gen_utf8_pass_test.pl"), outp, os.path.join(work, "in.csv")], stdout=subprocess.PIPE, stderr=subprocess.STDOUT, text=True)
+    if p2.returncode != 0:
+        return "gen_utf8_pass_test.pl exit %d: %s" % (p2.returncode, p2.stdout[-300:])
+    lines = [l for l in open(outp, encoding="utf-8").read().split("\n") if l != ""]
+    want = ["%s.%s" % (d, d) for d, t, m in rows]
+    if lines != want:
+        k = next((i for i in range(min(len(lines), len(want))) if lines[i] != want[i]), min(len(lines), len(want)))
+        return "gen_utf8_pass_test.pl: line %d is %r, expected %r (%d lines for %d rows)" % (k + 1, lines[k] if k < len(lines) else None, want[k] if k < len(want) else None, len(lines), len(want))
     for i, ((d, t, m), (gd, gl, gc)) in enumerate(zip(rows, got)):
         if gd != d:
             return "row %d: domain %r emitted as %r (order or content changed)" % (i, d, gd)
